@@ -40,8 +40,15 @@ func envOr(k, d string) string {
 	return d
 }
 
+// scratchToRemove is the scratch directory of the command in progress (removed on every exit
+// path, machinery trouble included, unless --keep was given).
+var scratchToRemove string
+
 func die2(format string, args ...any) {
 	fmt.Fprintf(os.Stderr, "vcheck: "+format+"\n", args...)
+	if scratchToRemove != "" {
+		os.RemoveAll(scratchToRemove)
+	}
 	os.Exit(2)
 }
 
@@ -230,6 +237,7 @@ func cmdRun(args []string) {
 	}
 	if !*keep {
 		defer os.RemoveAll(scratch)
+		scratchToRemove = scratch
 	}
 	exit := func(code int) {
 		if !*keep {
